@@ -94,7 +94,7 @@ def main(tier):
     # (i) only: names that need escaping inside C string literals / identifiers
     njobs = []
     for nm in c10.NAME_ALPHABET[:19]:
-        for pos in ('export', 'import-module', 'import-field', 'name-section', 'import-global'):
+        for pos in ('export', 'import-module', 'import-field', 'name-section', 'import-global', 'debug-name'):
             njobs.append((nm, pos))
 
     def work(job):
@@ -128,12 +128,13 @@ def main(tier):
         m = c10.name_module(nm, pos)
         wd = scratch('c11n')
         from batch import translate
-        rc, err = translate(m, wd, w2c2, ['-g'] if pos == 'name-section' else [])
+        rc, err = translate(m, wd, w2c2, ['-g'] if pos in ('name-section', 'debug-name') else [])
         if rc != 0:
             return ('translate', err[-200:])
         out = []
         for cc in ('gcc', 'clang'):
-            r = run([cc, '-std=gnu89', '-fsyntax-only', '-w', '-I', os.path.join(REPO, 'w2c2'), '-I', wd, os.path.join(wd, 'm.c')])
+            # -c, not -fsyntax-only: a debug name ends up in an __asm__ label, which only the assembler looks at
+            r = run([cc, '-std=gnu89', '-c', '-o', os.path.join(wd, 'm-%s.o' % cc), '-w', '-I', os.path.join(REPO, 'w2c2'), '-I', wd, os.path.join(wd, 'm.c')])
             if r.returncode != 0:
                 out.append((cc, r.stderr.decode(errors='replace')[:300]))
         shutil_rm(wd)
